@@ -534,5 +534,6 @@ theorem step_frame (t : Term.T) (tok : Term.Tok) (h1 : tok ≠ .decsc) (h2 : tok
   | sgr params => exact rframe_one (tframe_pen t _)
   | showCursor on => exact rframe_one ⟨rfl, rfl, rfl, fun _ => rfl⟩
   | cursorShape n => exact rframe_one ⟨rfl, rfl, rfl, fun _ => rfl⟩
+  | osc8 p u => exact rframe_one ⟨rfl, rfl, rfl, fun _ => rfl⟩
 
 end VaxisModel.Lemmas.EmuRefine
